@@ -107,6 +107,8 @@ def _post_poll_submit(engine, st, ctx, out):
                    z3.And(engine.to_val(st, ev.star) == ctx["a"].t if ev.star is not None else False, z3.BoolVal(_same_kw(engine, st, ev.starkw, ctx["k"])),
                           ev.recv == Val.id(st.get(engine.heap_key("PollExecutor", "_delegate"), sid))), ["C01", "C08"]))
         if not isinstance(out, Raise):
+            from .base import track_clause
+            cl.append(track_clause(engine, st, engine.to_val(st, out), "poll", st.get("_name", sid)))
             oid = Val.id(engine.to_val(st, out))
             cl.append(("the returned PollFuture is linked to the delegate's future and to this executor (pending futures keep their executor)", "PC",
                        z3.And(cls_of(oid) == engine.tag("PollFuture")), ["C08", "C12", "C02"]))
@@ -123,6 +125,8 @@ def _post_sync_submit(engine, st, ctx, out):
         ev = calls[0]
         cl.append(("an exception of the callable never escapes submit(): it becomes the future's outcome", "EX", z3.BoolVal(not isinstance(out, Raise)), ["C18", "C01"]))
         if not isinstance(out, Raise):
+            from .base import track_clause
+            cl.append(track_clause(engine, st, engine.to_val(st, out), "sync", st.get("_name", ctx["sid"])))
             oid = Val.id(engine.to_val(st, out))
             ok = z3.And(st.finished(oid), st.fresult(oid) == ev.ret, Val.is_none(st.fexc(oid))) if ev.exc is None else z3.And(st.finished(oid), st.fexc(oid) == ev.exc)
             cl.append(("the returned future is finished with the callable's own value / the very exception it raised", "PC", ok, ["C01", "C02", "C18"]))
@@ -138,6 +142,9 @@ def _post_pool_submit(engine, st, ctx, out):
                    z3.And(z3.BoolVal(len(subs) == 1), engine.to_val(st, ev.star) == ctx["a"].t if ev.star is not None else False,
                           z3.BoolVal(_same_kw(engine, st, ev.starkw, ctx["k"])), ev.recv == ctx["sid"],
                           (engine.to_val(st, out) == ev.ret) if not isinstance(out, Raise) else z3.BoolVal(True)), ["C01", "C11"]))
+        if not isinstance(out, Raise):
+            from .base import track_clause
+            cl.append(track_clause(engine, st, engine.to_val(st, out), "threadpool", st.get("_CustomizableThreadPoolExecutor__name", ctx["sid"])))
     return cl
 
 
